@@ -85,6 +85,12 @@ def run_case(ctx, rng, idx):
                 h.add_node(new)
             ctx.event("re-evaluated-after-node-replacement")
             static_case(ctx, rng, h, idx, stress=False)
+        if h.get_edges() and rng.random() < 0.3:  # the same hypergraph reached through other calls (copy of a copy / clear() and re-insertion)
+            from ..mutate import second_order
+
+            lab, g2 = second_order(rng, h)
+            ctx.event("re-evaluated-on-" + lab)
+            static_case(ctx, rng, g2, idx, stress=False)
     elif m == 5 and (idx // 8) % 2 == 1:
         # second stress family: a hub in 256+ hyperedges of ONE order (non-contiguous labels, an isolated node)
         import hypergraphx as hgx
